@@ -5,6 +5,16 @@ VERIF = os.path.dirname(os.path.dirname(os.path.abspath(__file__)))
 
 # id -> (category, technique, level text, level note, design ref)
 CHECKS = {
+ "C08": ("exploration",
+         "runtime monitoring: conservation ledger over element markers (every element of A and B accounted for after merge), name-uniqueness monitor, identity-law monitors, over generated module pairs with controlled overlap",
+         "Module pairs are generated with the overlap knobs of the property (disjoint, identical twins, near twins differing in one scalar field, same-name conflicts across kinds inside one namespace, pre-existing X.MERGE / X.MERGE2 names in A and in B, singletons on none/one/both sides, chains of two merges). After merge_modules every element of A must be unchanged (same-name GROUP/FUNCTION may only gain members at the end of their lists), every element of B must be represented exactly once - shared twin, or moved under its name or a fresh name N.MERGE[k] - with content unchanged modulo names, names must be unique per namespace and nothing may be invented; merge(A, empty)=A, merge(A, copy of A)=A, merge(empty, B)=B are checked literally. 3 000 / 60 000 pairs; floors: every namespace renamed and moved at least once.",
+         "trusts: unique markers written by the generator into long identifiers (ALIGNMENT_BYTE for RECORD_LAYOUT, version for TRANSFORMER); content compared through Debug text with generator names masked; USER_RIGHTS / SYSTEM_CONSTANT with equal ids are dropped by documented design and not judged",
+         "DESIGN.md section 3 C08"),
+ "C09": ("exploration",
+         "runtime monitoring: reference-graph isomorphism monitor (typed reference extraction at every site of the frozen site table before and after merge, joined by element markers)",
+         "B is internally consistent with every one of the 59 reference sites populated. For every edge (b, site, t) of B whose referrer was moved into the result, the value read at the same site of the element carrying b's marker must resolve to the element carrying t's marker (references to FUNCTION / GROUP / criterion names must keep their name and resolve). 3 000 / 60 000 pairs; floors: every site exercised, and every site whose target namespace can be renamed hit by an actual rename of its target.",
+         "trusts: the frozen site table (DESIGN.md appendix A); identical twins are shared by definition and not judged",
+         "DESIGN.md section 3 C09"),
  "C14": ("exploration",
          "runtime monitoring: permutation / canonical-order monitor for sort() (element multisets by name lookup and PartialEq, name-index coherence, order of /begin lines in the written text, reload equality, idempotence)",
          "Generated documents (up to 3 modules, all element kinds, shuffled and interleaved, comments, IF_DATA) are loaded and sorted; every list must hold the same elements with equal content and a coherent name index in ascending name order, singletons must be unchanged, the written text must list module-level elements grouped by kind and ascending by name, load(write(sorted)) must equal the sorted model including list order, and a second sort() must change neither model nor text. 3 000 / 80 000 documents.",
